@@ -1,6 +1,6 @@
 """Gen/Streamtabs.v: the declarative tables of testtools.testresult.real that the
 stream models (StreamRec.v, StreamConv.v) rest on, obtained from the imported live
-code of the tree under test (DESIGN 3.2).  Used by C09, C10 and C11.
+code of the tree under test (DESIGN 3.2).  Used by C09 and C10 (models StreamRec.v, StreamConv.v).
 
 Every entry is found by PROBING PUBLIC BEHAVIOUR (one status event through a fresh
 public consumer between startTestRun and stopTestRun), so that renaming or
